@@ -52,7 +52,7 @@ func (m c05) Run(ctx *core.Ctx) {
 	if ctx.Tier == "thorough" {
 		maxLen = 10
 	}
-	n := split(tierN(ctx.Tier, 400_000, 20_000_000), ctx.Shard, ctx.NShards)
+	n := split(tierN(ctx.Tier, 1_200_000, 20_000_000), ctx.Shard, ctx.NShards)
 	for i := int64(0); i < n; i++ {
 		in, base, has := startCase(r)
 		cs := &core.Case{Check: "history", Input: core.S(in), Base: core.S(base), HasBase: has,
